@@ -158,8 +158,8 @@ def run(chk, tier, seed):
     for i in range(n1):
         progs.append(coregen.Gen(seed * 7919 + i, max_depth=3, n_decls=6, p_disp=0.2).program("a%d" % i))
     for i in range(n2):
-        progs.append(coregen.Gen(seed * 104729 + i, max_depth=6 if tier == "quick" else 8,
-                                 n_decls=14 if tier == "quick" else 40, p_err=0.04, p_disp=0.1).program("b%d" % i))
+        progs.append(coregen.Gen(seed * 104729 + i, max_depth=6 if tier == "quick" else 7,
+                                 n_decls=14 if tier == "quick" else 30, p_err=0.04, p_disp=0.1).program("b%d" % i))
     progs += overload_programs(seed) + shortcircuit_programs()
     for b in range(0, len(progs), 1500):
         corecheck.run_core(chk, progs[b:b + 1500], "c02-%d" % b)
